@@ -479,12 +479,17 @@ def real_messages(ctx, want: int):
             fast = getattr(P, f"is_fast_pgn_{pgn}")()
         except Exception:  # noqa: BLE001
             continue
-        for attempt in range(4):
-            n = 8 if not fast else rng.choice([8, 9, 13, 14, 20, 27, 34, 50])
-            payload = bytes([0xFF] * n) if attempt == 0 else bytes(rng.choice([0xFF, 0, rng.getrandbits(8)]) for _ in range(n))
-            r = try_payload(pgn, payload, bool(fast))
-            if r:
-                out.append(r)
+        lens = [8] if not fast else [9, 13, 14, 20, 27, 34, 50, 8, 6, 75, 134]
+        found = False
+        for n in lens:
+            for attempt in range(3):
+                payload = bytes([0xFF] * n) if attempt == 0 else bytes(rng.choice([0xFF, 0, rng.getrandbits(8)]) for _ in range(n))
+                r = try_payload(pgn, payload, bool(fast))
+                if r:
+                    out.append(r)
+                    found = True
+                    break
+            if found:
                 break
     return out
 
@@ -864,6 +869,29 @@ def check_split(fmt: str, pkts):
     return None
 
 
+def check_frame(fmt: str, hdr, data: bytes, prefix: str):
+    """arbitrary frame: encode (encode function replaced from outside), parse, compare what `_decode` receives"""
+    impl = Impl()
+    kind = ["ebyte", "usb", "yd", "acti"].index(fmt)
+    pgn, src, dst, prio = hdr
+    base = {"kind": "frame", "fmt": fmt, "hdr": list(hdr), "data": data.hex(), "prefix": prefix}
+    frames, obs = impl.encode(kind, hdr, data)
+    if obs[0] != "ok" or len(obs[1]) != 1:
+        return dict(base, key=f"frame:{fmt}:encode", what=f"{fmt}: frame {hdr} data {data.hex()} is not encoded to one packet: {obs}")
+    pk = obs[1][0]
+    if fmt == "ebyte" and len(pk) != 13:
+        return dict(base, key="sizes:ebyte", what=f"EByte packet of {len(pk)} bytes (not 13) for a {len(data)}-byte frame: {pk.hex()}")
+    if fmt == "usb" and len(pk) != 20:
+        return dict(base, key="sizes:usb", what=f"USB packet of {len(pk)} bytes (not 20) for a {len(data)}-byte frame: {pk.hex()}")
+    inp = pk if kind < 2 else prefix + (pk.decode() if kind == 2 else pk)
+    got, _ = impl.parse(kind, inp)
+    exp = (pgn, prio, src, dst if (kind == 3 or ((pgn >> 8) & 0xFF) < 240) else 255, data[::-1], kind == 3)
+    if got != ("ok", exp):
+        return dict(base, key=f"frame:{fmt}", what=f"{fmt}: frame {hdr} data {data.hex()} -> {inp!r} is handed to _decode as {got[1]} "
+                    f"instead of {exp}")
+    return None
+
+
 PREFIX = {"ebyte": [""], "usb": [""], "yd": ["00:00:00.000 R ", "23:59:59.999 T "], "acti": ["A000001.000 ", "A173321.107 "]}
 
 
@@ -893,6 +921,14 @@ def search(ctx):
                 streams["yd"] += enc.encode_yacht_devices(m)
             except Exception:  # noqa: BLE001
                 pass
+    # arbitrary frames, at the level of the tuple handed to `_decode`
+    for _ in range(ctx.n(300, 3000)):
+        pgn, src, dst, prio = gen_hdr(rng)
+        if ((pgn >> 8) & 0xFF) < 240:
+            pgn &= ~0xFF
+        for fmt in ("ebyte", "usb", "yd", "acti"):
+            data = gen_data(rng, rng.randint(1 if fmt in ("yd", "acti") else 0, 8))
+            add(check_frame(fmt, (pgn, src, dst, prio), data, rng.choice(PREFIX[fmt])))
     # the clients' own ISO Request (3 data bytes) is the canonical short frame
     iso = _msg_from(59904, bytes([0x00, 0xEE, 0x00]), 1, 255, 6)
     if iso is not None:
@@ -923,6 +959,8 @@ def replay(ctx, data):
             return True
         m.source, m.destination, m.priority = w["src"], w["dst"], w["prio"]
         r = check_roundtrip(m, bytes.fromhex(w["payload"]), False, w["fmt"], w.get("prefix", ""))
+    elif w.get("kind") == "frame":
+        r = check_frame(w["fmt"], tuple(w["hdr"]), bytes.fromhex(w["data"]), w.get("prefix", ""))
     elif w.get("kind") == "checksum":
         r = check_checksum(bytes.fromhex(w["packet"]))
     elif w.get("kind") == "split":
